@@ -64,3 +64,93 @@ Proof.
 Qed.
 
 End Corollaries.
+
+(* Tree-level entry points on ANY tree (also one built by hand through the public constructors, which no
+   source string denotes): the 24 `Node::eval*` wrappers are the same projections. *)
+Section NodeLevel.
+Variable O : std_oracle.
+
+Definition run_node_entry_gen (m : emode) (t : etype) (n : node) (c : ctx) (lg : log) : outcome value * ctx * log :=
+  run_wrapper O 4 LvNode (entry_name m t) (InNode n) c lg.
+
+Definition run_node_entry (m : emode) (t : etype) (n : node) (c : ctx) (lg : log) : outcome value * ctx * log :=
+  match m with
+  | MRo => let '(r, lg') := eval_ro O n c lg in (project t r, c, lg')
+  | MMut => let '(r, c', lg') := eval_mut O n c lg in (project t r, c', lg')
+  | MFree => let '(r, _, _) := eval_mut O n empty_hashmap [] in (project t r, c, lg)
+  end.
+
+Local Opaque eval_ro eval_mut.
+
+Lemma node_entry_gen_eq (m : emode) (t : etype) (n : node) (c : ctx) (lg : log) :
+  translation_complete = true ->
+  run_node_entry_gen m t n c lg = run_node_entry m t n c lg.
+Proof.
+  intros _.
+  destruct m, t; unfold run_node_entry_gen, run_node_entry, entry_name;
+    cbn -[project];
+    try (destruct (eval_mut O n empty_hashmap []) as [[r c'] lg']; destruct r as [v|e|p]; try reflexivity;
+         destruct v; reflexivity);
+    try (destruct (eval_ro O n c lg) as [r lg']; destruct r as [v|e|p]; try reflexivity; destruct v; reflexivity);
+    try (destruct (eval_mut O n c lg) as [[r c'] lg']; destruct r as [v|e|p]; try reflexivity; destruct v; reflexivity).
+Qed.
+
+(* the string-level entry point is the tree-level one applied to the built tree *)
+Lemma entry_is_node_entry (l : elevel) (m : emode) (t : etype) (s : str) (n : node) (c : ctx) (lg : log) :
+  translation_complete = true ->
+  build_operator_tree s = Ok n ->
+  run_entry_gen O l m t s c lg = run_node_entry m t n c lg.
+Proof.
+  intros T H. rewrite entry_gen_eq by exact T. unfold run_entry, run_node_entry. rewrite H. reflexivity.
+Qed.
+
+End NodeLevel.
+
+(* the projection as an algebra: the untyped view is the identity, a typed view is idempotent, a typed
+   success has the requested type, and errors / panics pass through every view unchanged *)
+Definition has_etype (t : etype) (v : value) : bool :=
+  match t, v with
+  | XValue, _ => true
+  | XString, VString _ | XInt, VInt _ | XFloat, VFloat _ | XNumber, VFloat _
+  | XBoolean, VBool _ | XTuple, VTuple _ | XEmpty, VEmpty => true
+  | _, _ => false
+  end.
+
+Lemma project_value (r : outcome value) : project XValue r = r.
+Proof. destruct r as [v|e|p]; reflexivity. Qed.
+
+Lemma project_idem (t : etype) (r : outcome value) : project t (project t r) = project t r.
+Proof. destruct r as [v|e|p]; try reflexivity; destruct t, v; reflexivity. Qed.
+
+Lemma project_ok_typed (t : etype) (r : outcome value) (v : value) :
+  project t r = Ok v -> has_etype t v = true.
+Proof. destruct r as [w|e|p]; try discriminate; destruct t, w; cbn; intros H; inversion H; reflexivity. Qed.
+
+Lemma project_ok_source (t : etype) (r : outcome value) (v : value) :
+  project t r = Ok v ->
+  exists w, r = Ok w /\ (v = w \/ (t = XNumber /\ exists i, w = VInt i /\ v = VFloat (f_of_Z i))).
+Proof.
+  destruct r as [w|e|p]; try discriminate. intros H. exists w. split; [reflexivity|].
+  destruct t, w; cbn in H; inversion H; try (left; reflexivity).
+  right. split; [reflexivity|]. eexists; split; reflexivity.
+Qed.
+
+Lemma project_not_ok (t : etype) (r : outcome value) :
+  (forall v, r <> Ok v) -> project t r = r.
+Proof. destruct r as [v|e|p]; try reflexivity. intros H. exfalso. exact (H v eq_refl). Qed.
+
+(* a typed view fails only with the evaluator's own error or with the expected-type error carrying the
+   evaluator's value *)
+Lemma project_err_source (t : etype) (r : outcome value) (x : error) :
+  project t r = Err x ->
+  r = Err x \/ exists w, r = Ok w /\ has_etype t w = false /\
+     x = match t with
+         | XValue => x | XString => EExpectedString w | XInt => EExpectedInt w | XFloat => EExpectedFloat w
+         | XNumber => EExpectedNumber w | XBoolean => EExpectedBoolean w | XTuple => EExpectedTuple w
+         | XEmpty => EExpectedEmpty w
+         end.
+Proof.
+  destruct r as [w|e|p]; try discriminate.
+  - intros H. right. exists w. destruct t, w; cbn in H; try discriminate; inversion H; repeat split.
+  - cbn. intros H. left. exact H.
+Qed.
